@@ -37,7 +37,7 @@ RULE = ("spec->impl: every multiset of <= N points of the 3x3 lattice (TLC-enume
         "data point (decided by the TLA+ operators TieAtK / QueryInData); an estimator prediction is non-trivial when more than one "
         "k-nearest set exists.  Cases are distinct by construction (each (data order, query, metric, structure, k) is generated once).")
 
-NOT_COVERED = ["Mahalanobis as the search metric", "data sets beyond ~1000 points (3000 in the thorough tier), single precision (f32)",
+NOT_COVERED = ["a NaN radius (outside the domain r > 0 / r <= 0 of the statement: never generated, nothing demanded)", "Mahalanobis as the search metric", "data sets beyond ~1000 points (3000 in the thorough tier), single precision (f32)",
                "exactness of a returned distance below the resolution of the integer key / rank projection "
                "(a distance that differs from the true one by less than 1e-6 relative is not noticed on lattice data; on continuous "
                "data the returned distance is compared bit-exactly, through ranks, with the library's own metric)",
@@ -204,9 +204,9 @@ def run(ctx):
         files[name] = f
 
     must = {
-        "edge": ("Sweep", "Find", "FindErr", "Radius", "RadiusErr", "RadiusAt", "TieAtK", "QueryInData", "linear", "cover",
+        "edge": ("Sweep", "Find", "FindErr", "Radius", "RadiusErr", "RadiusAt", "RadiusInf", "TieAtK", "QueryInData", "linear", "cover",
                  "man", "euc", "mink", "ham", "N1cover", "N1linear", "Identcover", "Identlinear"),
-        "random": ("Sweep", "Find", "FindErr", "Radius", "RadiusErr", "TieAtK", "QueryInData", "linear", "cover",
+        "random": ("Sweep", "Find", "FindErr", "Radius", "RadiusErr", "RadiusInf", "TieAtK", "QueryInData", "linear", "cover",
                    "man", "euc", "mink", "ham", "lat", "cont"),
         "est": ("KnnPredict", "ClsPred", "RegPred", "EstErr", "EstTieAtK", "EstDistance", "EstUnconstrained",
                 "EstN1clscover", "EstN1regcover", "EstN1clslinear", "EstN1reglinear",
@@ -214,15 +214,15 @@ def run(ctx):
                 "EstWeightBeforeDistancecls", "EstWeightBeforeDistancereg", "EstViaFields", "EstDefaultMetric",
                 "EstSignedZeroLabels", "EstApiinherent", "EstApitrait"),
         # size ladder 63 .. 1025 (3000 thorough) for both structures; deep / multi-scale data; large estimators
-        "ladder": ("Sweep", "Find", "FindErr", "Radius", "RadiusErr", "RadiusAt", "linear", "cover",
+        "ladder": ("Sweep", "Find", "FindErr", "Radius", "RadiusErr", "RadiusAt", "RadiusInf", "linear", "cover",
                    "NOver256cover", "NOver256linear", "NOver1024cover", "NOver1024linear"),
         "deep": ("Sweep", "Find", "Radius", "RadiusAt", "TieAtK", "linear", "cover", "cont", "man", "euc"),
-        "estbig": ("KnnPredict", "ClsPred", "RegPred", "EstDistance", "EstBatchOver256", "EstBatchOver512", "EstTrainOver256",
+        "estbig": ("KnnPredict", "ClsPred", "RegPred", "EstDistance", "EstBatchOver256", "EstBatchOver512", "EstTrainOver256", "EstManyClasses",
                    "EstApiinherent", "EstApitrait"),
         "heap": ("Heap", "HeapTlc"),
         "lin": ("LinFind",),
         "tree": ("Tree", "TreeFind"),
-        "lattice": ("Sweep", "Find", "FindErr", "Radius", "RadiusErr", "RadiusAt", "TieAtK", "QueryInData", "linear", "cover",
+        "lattice": ("Sweep", "Find", "FindErr", "Radius", "RadiusErr", "RadiusAt", "RadiusInf", "TieAtK", "QueryInData", "linear", "cover",
                     "man", "euc", "mink", "ham"),
         "lattice0": ("Sweep", "N1cover", "N1linear", "Identcover", "Identlinear"),
     }
